@@ -108,6 +108,11 @@ pub fn universe() -> Vec<RuleSpec> {
         r.path = path.into();
         v.push(r);
     }
+    // r18: a group of TWO date/time conditions, one shared with the time group (r9 / r10) and one with the weekdays group (r11)
+    let mut r = mk("r18", "r18 static /a + time[09,17) + weekdays[Mon,Tue]");
+    r.time = Some(vec![(Some("09:00:00".into()), Some("17:00:00".into()))]);
+    r.weekdays = Some(vec!["Mon".into(), "Tue".into()]);
+    v.push(r);
     // r13: the empty host is legal and means "any host"
     let mut r = mk("r13", "r13 host \"\" (any host) static /a");
     r.host = Some(String::new());
